@@ -21,6 +21,7 @@ import (
 	"github.com/youchainhq/go-youchain/event"
 	"github.com/youchainhq/go-youchain/params"
 	"github.com/youchainhq/go-youchain/youdb"
+	"verifharness/internal/vh"
 )
 
 // ---- fake chain ------------------------------------------------------------------------------------------
@@ -107,18 +108,20 @@ type poolCfg struct {
 }
 
 type world struct {
-	cfg    poolCfg
-	keys   []*ecdsa.PrivateKey
-	addrs  []common.Address
-	aidx   map[common.Address]int
-	chain  *fakeChain
-	pool   *core.TxPool
-	signer types.Signer
-	txs    map[uint64]*types.Transaction // id -> real transaction
-	desc   map[uint64]mtx
-	ids    map[common.Hash]uint64
-	salt   uint64
-	panics []string
+	cfg     poolCfg
+	keys    []*ecdsa.PrivateKey
+	addrs   []common.Address
+	aidx    map[common.Address]int
+	chain   *fakeChain
+	pool    *core.TxPool
+	signer  types.Signer
+	txs     map[uint64]*types.Transaction // id -> real transaction
+	desc    map[uint64]mtx
+	ids     map[common.Hash]uint64
+	salt    uint64
+	panics  []string
+	scr     *vh.RNG            // drives the caller-side edits of returned views (seeded from the case's init line)
+	foreign *types.Transaction // a valid transaction the pool never saw, written into returned slices
 }
 
 var keyCache []*ecdsa.PrivateKey
@@ -157,6 +160,53 @@ func newWorld(cfg poolCfg, accts [][2]uint64) (*world, error) {
 	w.pool = core.NewTxPool(pc, w.chain)
 	w.signer = types.MakeSigner(big.NewInt(100))
 	return w, nil
+}
+
+// scribble treats a view returned by the pool as caller-owned (the API promises "a copy, freely modifiable"):
+// every slice is reordered and partly overwritten in place. On a pool that really hands out copies this is a
+// no-op for the pool; if a returned slice aliases an internal cache, the next comparison of the views shows it.
+func (w *world) scribble(m map[common.Address]types.Transactions) {
+	if w.scr == nil {
+		return
+	}
+	if w.foreign == nil {
+		var to common.Address
+		to[0] = 0xee
+		tx, err := types.SignTx(types.NewTransaction(987654321, to, big.NewInt(1), 21000, big.NewInt(1), nil), w.signer, w.keys[0])
+		if err != nil {
+			return
+		}
+		w.foreign = tx
+	}
+	// fixed account order: map iteration must not consume the RNG in a random order
+	for _, a := range w.addrs {
+		txs, ok := m[a]
+		if !ok || len(txs) == 0 {
+			continue
+		}
+		switch w.scr.Intn(4) {
+		case 0: // reverse
+			for i, j := 0, len(txs)-1; i < j; i, j = i+1, j-1 {
+				txs[i], txs[j] = txs[j], txs[i]
+			}
+		case 1: // reverse and overwrite one element
+			for i, j := 0, len(txs)-1; i < j; i, j = i+1, j-1 {
+				txs[i], txs[j] = txs[j], txs[i]
+			}
+			txs[w.scr.Intn(len(txs))] = w.foreign
+		case 2: // overwrite everything
+			for i := range txs {
+				txs[i] = w.foreign
+			}
+		case 3: // rotate by one and duplicate the head
+			first := txs[0]
+			copy(txs, txs[1:])
+			txs[len(txs)-1] = first
+			if len(txs) > 1 {
+				txs[0] = txs[1]
+			}
+		}
+	}
 }
 
 func (w *world) close() {
